@@ -17,7 +17,11 @@ Proof.
   now rewrite Z.opp_involutive.
 Qed.
 Lemma eval_atom_sx E a : eval3 E (atom_sx a) = atom_val a.
-Proof. destruct a; cbn [atom_sx atom_val]; [apply eval_num_sx|reflexivity|reflexivity]. Qed.
+Proof.
+  destruct a; cbn [atom_sx atom_val]; [apply eval_num_sx|reflexivity|reflexivity|].
+  unfold flo_sx. destruct (h <? 0); cbn [eval3 v_neg]; [|reflexivity].
+  unfold QArith_base.Qopp. cbn [QArith_base.Qnum QArith_base.Qden]. now rewrite Z.opp_involutive.
+Qed.
 
 Theorem eval_denote E n : eval3 E (denote n) = evaln E n.
 Proof.
@@ -28,8 +32,8 @@ Proof.
     + cbn [eval3]. now rewrite IHn1, IHn2.
     + destruct n2 as [| |l| | | | | | |]; try reflexivity. cbn [eval3]. rewrite IHn1, map_map.
       now rewrite (map_ext_Forall _ _ (IHl l eq_refl)).
-    + destruct n2 as [|[]| | | | | | | |]; try reflexivity. cbn [eval3]. now rewrite IHn1.
-    + destruct n2 as [|[]| | | | | | | |]; try reflexivity. cbn [eval3]. now rewrite IHn1.
+    + destruct n2 as [|[| | |]| | | | | | | |]; try reflexivity. cbn [eval3]. now rewrite IHn1.
+    + destruct n2 as [|[| | |]| | | | | | | |]; try reflexivity. cbn [eval3]. now rewrite IHn1.
   - cbn [eval3]. now rewrite IHn1, IHn2.
   - destruct f. cbn [eval3]. now rewrite IHn1, IHn2.
   - destruct p; cbn [eval3]; now rewrite IHn.
@@ -83,9 +87,10 @@ Fixpoint no_eq_none (n : node) : bool :=
 Lemma is_null_denote n : is_null_sx (denote n) = is_none n.
 Proof.
   destruct n; try reflexivity.
-  - destruct a; try reflexivity. cbn. unfold num_sx. destruct (z <? 0); reflexivity.
+  - destruct a; try reflexivity; cbn; unfold num_sx, flo_sx;
+      match goal with |- context [?z <? 0] => destruct (z <? 0) end; reflexivity.
   - destruct op; try reflexivity; cbn [denote];
-      destruct n2 as [|[]| | | | | | | |]; reflexivity.
+      destruct n2 as [|[| | |]| | | | | | | |]; reflexivity.
   - destruct f; reflexivity.
   - destruct p; reflexivity.
   - destruct n2; reflexivity.
@@ -95,7 +100,8 @@ Lemma no_eq_null_denote n : no_eq_none n = true -> no_eq_null (denote n) = true.
 Proof.
   induction n as [c|a|l IHl|k|op n1 n2 IHn1 IHn2 IHl|n1 n2 IHn1 IHn2|f n1 n2 IHn1 IHn2|p n IHn|neg n1 n2 IHn1 IHn2|]
     using node_ind2; cbn [no_eq_none denote]; try reflexivity.
-  - destruct a; try reflexivity. intros _. cbn. unfold num_sx. destruct (z <? 0); reflexivity.
+  - destruct a; try reflexivity; intros _; cbn; unfold num_sx, flo_sx;
+      match goal with |- context [?z <? 0] => destruct (z <? 0) end; reflexivity.
   - destruct op as [o| | |].
     + intros H. apply andb_true_iff in H as [H Hc]. apply andb_true_iff in H as [H1 H2].
       cbn [no_eq_null]. rewrite IHn1, IHn2, !is_null_denote by assumption. exact Hc.
@@ -104,9 +110,9 @@ Proof.
       specialize (IHl l eq_refl). rewrite Forall_forall in IHl. rewrite forallb_forall in *.
       intros s Hs. apply in_map_iff in Hs as (c & <- & Hc). apply IHl; auto.
     + intros H. apply andb_true_iff in H as [H1 H2].
-      destruct n2 as [|[]| | | | | | | |]; try reflexivity. cbn [no_eq_null]. auto.
+      destruct n2 as [|[| | |]| | | | | | | |]; try reflexivity. cbn [no_eq_null]. auto.
     + intros H. apply andb_true_iff in H as [H1 H2].
-      destruct n2 as [|[]| | | | | | | |]; try reflexivity. cbn [no_eq_null]. auto.
+      destruct n2 as [|[| | |]| | | | | | | |]; try reflexivity. cbn [no_eq_null]. auto.
   - intros H. apply andb_true_iff in H as [H1 H2]. cbn [no_eq_null is_eqne andb negb].
     rewrite IHn1, IHn2 by assumption. reflexivity.
   - intros H. apply andb_true_iff in H as [H1 H2]. destruct f. cbn [no_eq_null is_eqne andb negb].
@@ -243,9 +249,8 @@ Qed.
 Lemma cmp_vals_antisym x y :
   cmp_vals y x = match cmp_vals x y with Some c => Some (CompOpp c) | None => None end.
 Proof.
-  destruct x, y; cbn [cmp_vals]; try reflexivity.
-  - now rewrite Z.compare_antisym.
-  - now rewrite codes_cmp_antisym.
+  destruct x, y; cbn [cmp_vals as_q]; try reflexivity;
+    try (now rewrite codes_cmp_antisym); now rewrite <- QArith_base.Qcompare_antisym.
 Qed.
 Definition mirror (o : binop) : binop :=
   match o with BLt => BGt | BLe => BGe | BGt => BLt | BGe => BLe | o => o end.
